@@ -66,7 +66,7 @@ T_Rename ==
        ELSE IF ~(KnownPath(E.from) /\ KnownPath(E.to)) \/ vdir[E.from] = 0
             THEN Drift("rename: source not in the model") /\ Skip
        ELSE /\ IF E.to = Dest /\ PathClass(E.from) # "New"
-                 THEN Drift("rename onto dest of a file the model considers incomplete") ELSE TRUE
+                 THEN Drift("rename onto dest of an incomplete file") ELSE TRUE
             /\ FsRename(E.from, E.to)
 
 T_Link ==
@@ -113,18 +113,18 @@ T_Post ==
     /\ vres # "run"
     \* P1
     /\ IF ObsPrev(E) \/ ObsComplete(E) THEN TRUE
-       ELSE Bad("dest is neither the previous file nor a complete new archive")
+       ELSE Bad("dest is neither previous nor complete")
     \* P2
     /\ IF tcur.op = "build" /\ vres = "err" /\ ~ObsPrev(E)
-         THEN Bad("build returned Err but dest is not the previous file") ELSE TRUE
+         THEN Bad("build returned Err but dest changed") ELSE TRUE
     \* D-conjuncts
     /\ IF tcur.op = "compact" /\ vres = "err" /\ ~ObsPrev(E)
-         THEN Drift("compact returned Err after its commit point (new archive in place)") ELSE TRUE
+         THEN Drift("compact returned Err after its commit point") ELSE TRUE
     /\ IF vres = "ok" /\ ~ObsComplete(E) /\ ObsPrev(E)
-         THEN Drift("Ok returned but dest still holds the previous file") ELSE TRUE
+         THEN Drift("Ok returned but dest is still the previous file") ELSE TRUE
     /\ IF tcur.fkind = "none" /\ vres # "ok"
-         THEN Drift("the un-faulted reference run did not return Ok") ELSE TRUE
-    /\ IF Predicted(E) THEN TRUE ELSE Drift("dest class predicted from the system calls differs from the observed one")
+         THEN Drift("reference run did not return Ok") ELSE TRUE
+    /\ IF Predicted(E) THEN TRUE ELSE Drift("predicted dest class differs from observed")
     /\ IF vres = "err" /\ ~vhist.unlinkfail /\ E.leftovers > 0
          THEN Drift("temp file left behind after an Err return") ELSE TRUE
 
